@@ -259,8 +259,8 @@ def _impl(op, a):
             def run0():
                 p = Perm(pseq(a[1]))
                 if len(a) >= 3:
-                    return fmt(f, getattr(p, f)(_step(a)))
-                return fmt(f, getattr(p, f)())
+                    return fmt(f, getattr(p, past.alias(f, tuple(a)))(_step(a)))
+                return fmt(f, getattr(p, past.alias(f, tuple(a)))())
             return guarded(run0)
         box = []
 
@@ -271,8 +271,8 @@ def _impl(op, a):
                 _use_stats(box[0], f, used.digest(op, a))
             p = box[0]
             if len(a) >= 3:
-                return fmt(f, getattr(p, f)(_step(a)))
-            return fmt(f, getattr(p, f)())
+                return fmt(f, getattr(p, past.alias(f, tuple(a)))(_step(a)))
+            return fmt(f, getattr(p, past.alias(f, tuple(a)))())
         # the statistic under test is evaluated twice on the same, used, object
         return used.twice(lambda: guarded(run))
     if op in ("stat", "statm") and _heavy(op, a):
